@@ -1,6 +1,7 @@
 package task
 
 import (
+	"mvdan.cc/sh/v3/interp"
 	"context"
 	"io"
 	"os"
@@ -94,6 +95,60 @@ func ZZ_C11_DynamicVar() {
 		zz.Assert(len(got) == 2 && got[0] == wantDir, "dynamic-var-evaluated-in-own-directory/"+when)
 		if len(got) == 2 {
 			zz.Assert(got[1] == wantEnv, "dynamic-var-evaluated-in-own-environment/"+when)
+		}
+	}
+	if zz.Twin() {
+		zz.Assert(false, "twin")
+	}
+	zz.Reach("end")
+}
+
+// ZZ_C11_FailingDynamicVar: a dynamic variable whose command prints something and then
+// (symbolically) fails: compiling the task fails every time it is compiled, also after an
+// earlier compilation (of the same or of another task with the same command text) already
+// ran the command; what a failed command printed is nobody's value.
+func ZZ_C11_FailingDynamicVar() {
+	fails := zz.Bool("command_fails_after_printing")
+	out := zz.Str("printed", 2, "ab")
+	zz.Assume(out != "")
+	zzRun = func(ctx context.Context, opts *execext.RunCommandOptions) error {
+		if opts.Stdout != nil {
+			_, _ = io.WriteString(opts.Stdout, out+"\n")
+		}
+		if fails {
+			return interp.NewExitStatus(3)
+		}
+		return nil
+	}
+	zzEnviron = []string{"HOME=/h"}
+	cmd := "rev"
+	if zz.Native() {
+		cmd = "echo " + out
+		if fails {
+			cmd += "; exit 3"
+		}
+	}
+	tf := &ast.Taskfile{Vars: ast.NewVars(), Env: ast.NewVars(), Tasks: ast.NewTasks(), Run: "always", Method: "checksum"}
+	for _, n := range []string{"fetch", "publish"} {
+		sh := cmd
+		t := &ast.Task{Task: n, Location: &ast.Location{Taskfile: "/d/Taskfile.yml"}, Vars: ast.NewVars(), Env: ast.NewVars(),
+			Cmds: []*ast.Cmd{{Cmd: "use {{.REV}}"}}}
+		t.Vars.Set("REV", ast.Var{Sh: &sh})
+		tf.Tasks.Set(n, t)
+	}
+	e := zzC11Executor(tf, "")
+	names := []string{"publish", "fetch"}
+	first := names[zz.Choose("compiled_first", 2)]
+	for k, n := range []string{first, "publish"} {
+		when := "first-compilation"
+		if k == 1 {
+			when = "after-the-command-already-ran"
+		}
+		ct, err := e.CompiledTask(&Call{Task: n})
+		if fails {
+			zz.Assert(err != nil, "failing-dynamic-variable-fails-the-compilation/"+when)
+		} else {
+			zz.Assert(err == nil && ct != nil && len(ct.Cmds) == 1 && ct.Cmds[0].Cmd == "use "+out, "dynamic-variable-holds-the-output/"+when)
 		}
 	}
 	if zz.Twin() {
